@@ -181,6 +181,7 @@ pub proof fn lemma_repl_rev_tree(rc: Rc, probs: Seq<u16>, off: nat, n: nat, i: n
     }
 }
 
+#[verifier::rlimit(100)]
 pub proof fn lemma_repl_len(rc: Rc, ld: LenS, pos_state: nat, upd: bool, inp2: Seq<u8>)
     ensures match sp_len(rc, ld, pos_state, upd) {
         Some((l, r2, ld2)) => rc_adv(rc, r2)
@@ -335,6 +336,7 @@ pub proof fn lemma_repl_literal(rc: Rc, m: LzS, w: Win, upd: bool, inp2: Seq<u8>
     }
 }
 
+#[verifier::rlimit(100)]
 pub proof fn lemma_repl_distance(rc: Rc, pos_slot: Seq<Seq<u16>>, pos_decoders: Seq<u16>, align: Seq<u16>, len: nat, upd: bool, inp2: Seq<u8>)
     ensures match sp_distance(rc, pos_slot, pos_decoders, align, len, upd) {
         Some((d, r2, ps2, pd2, al2)) => rc_adv(rc, r2)
@@ -343,6 +345,7 @@ pub proof fn lemma_repl_distance(rc: Rc, pos_slot: Seq<Seq<u16>>, pos_decoders: 
         None => true,
     },
 {
+    hide(sp_bit);
     reveal(sp_distance);
     let len_state: nat = if len > 3 { 3 } else { len };
     lemma_repl_tree(rc, pos_slot[len_state as int], 6, 0, 1, upd, inp2);
@@ -439,6 +442,7 @@ pub proof fn lemma_repl_step_match(rc: Rc, m: LzS, w: Win, pos_state: nat, upd: 
     }
 }
 
+#[verifier::rlimit(100)]
 pub proof fn lemma_repl_step_rep(rc: Rc, m: LzS, w: Win, pos_state: nat, upd: bool, inp2: Seq<u8>)
     ensures match sp_step_rep(rc, m, w, pos_state, upd) {
         Some(res) => rc_adv(rc, res.1) && res.0 is Continue
